@@ -96,14 +96,20 @@ CHECKS.update({
         note='Trusted: hand model of _group_matching/group_tokens and of the later passes (tested against the code after every pass).',
         design='7/C09', technique='Coq proof (simulation invariant; span preservation through all passes) + correspondence'),
     'C11': dict(
-        text='Coq proofs: C11_lex_case (ASCII re-casing: same token boundaries and types, all texts), C11_lex_ws_run (a non-empty '
-             'whitespace run at a token boundary lexes to one token per unit and the rest of the text is lexed as after a single blank), '
-             'C11_multiword_fin (39 multi-word keywords x inner runs x case: finite family, bound in the statement), C11_split / '
-             'C11_case_split (statement sequence of significant tokens invariant under the skeleton relation, with the exact guard), '
-             'C11_group_matching (bracket matching commutes with taking shapes). The full property is REFUTED on the unchanged tree in nine '
-             'ways (nine listed findings, seven with vm_compute witnesses through the model). The generic _group driver, the ad-hoc '
-             'passes and get_type are covered by the metamorphic oracle (two renderings of one script) and the parse correspondence only.',
-        note='Partial: lexer, splitter and bracket-matcher layers proved; the remaining grouping passes by exploration. Nine known findings.',
+        text='Coq proofs. LETTER CASE, unbounded, every layer: C11_lex_case (ASCII re-casing: same token boundaries and types, all texts), '
+             'C11_case_split (statement boundaries), and for the grouping layer ALL 25 PASSES: C11_group_case (trees related by crel -- same '
+             'structure, classes and types, keyword leaves equal up to ASCII case -- are grouped to related trees, under the exact guard that '
+             'excludes the one case-sensitive read `value == \'AS\'` of group_functions), C11_parse_case / C11_parse_case_text (through '
+             'cur_parse), C11_get_type_case (same statement types); proved generically on the callback IR regenerated from the source '
+             '(C11g_callbacks_case_safe: all 33 boolean callbacks of the _group passes are case safe, by vm_compute over Gen/PassTab.v). '
+             'WHITESPACE: C11_lex_ws_run (a non-empty whitespace run at a token boundary lexes to one token per unit and the rest is lexed '
+             'as after a single blank), C11_multiword_fin (39 multi-word keywords x inner runs x case: finite family, bound in the statement), '
+             'C11_split (statement sequence invariant under the skeleton relation, with the exact guard), C11_group_matching (bracket '
+             'matching commutes with taking shapes). The full property is REFUTED on the unchanged tree in nine ways (nine listed '
+             'findings, with vm_compute witnesses through the model). Whitespace invariance of the generic _group driver and the ad-hoc '
+             'passes is covered by the metamorphic oracle (two renderings of one script) and the parse correspondence.',
+        note='Partial: letter case proved for every layer; whitespace proved for lexer, splitter and bracket matcher, the remaining grouping '
+             'passes by exploration. Nine known findings.',
         design='7/C11', technique='Coq proof per layer (relational invariance, skeleton simulation) + refutations + metamorphic oracle'),
     'C16': dict(
         text='Coq proofs, generic in the rules and instantiated on the REGENERATED SQL_REGEX on every run: C16_criterion (every unbounded '
